@@ -153,6 +153,12 @@ def gen_stmt(rng):
         ("select s, max(x) - min(y) from a group by s", {"agg-expr"}), ("select * from a, b, c where a.x = b.x and b.x = c.x", {"join3"}),
         ("select x from a union all select x from b", {"setop"}), ("select 1e308", {"exponent-literal"}), ("select x from a where s like 'a%'", {"like"}),
         ("select cast(x as varchar) || s from a", {"cast"}), ("select case when x > 1 then y else x end from a", {"case"}),
+        # ORDER BY keys that are not (only) selected columns: under DISTINCT / GROUP BY the statement is either rejected or executable
+        ("select distinct x from a order by y + 1", {"distinct"}), ("select distinct x from a order by x + 1 desc", {"distinct"}),
+        ("select distinct on (x) x, y from a order by y * 2", {"distinct"}), ("select distinct x, y from a order by x + y", {"distinct"}),
+        ("select x from a order by y + 1 limit 2", {"order-expr"}), ("select x from a order by y desc, s limit 1 offset 1", {"order-expr"}),
+        ("select x, row_number() over (order by x) as r from a order by r", {"window-order"}), ("select x from a order by row_number() over ()", {"window-order"}),
+        ("select x, count(*) from a group by x order by max(y)", {"agg-expr"}), ("select x from a group by x order by count(*) desc limit 2", {"agg-expr"}),
     ])
 
 
@@ -219,6 +225,15 @@ def run(R, only=None):
             R.property_fails(klass, f"C17 `{c['sql']}` ({c['engine']}): the optimiser fails on a bound statement: {json.dumps(opt)[:200]}", rep)
             continue
         built = not any(t in txt for t in BUILD_PANICS)
+        if built and "panic" not in ran and "execute error: abort" in txt:
+            # an executor task panicked while the statement ran: the plan was not executable after all
+            q = c["sql"]
+            win_key = " over (" in q and ("order by" in q.rsplit(")", 1)[-1] or "order by" in q.split(" over (", 1)[0])
+            klass = ("KF_C17_window_in_order_by" if win_key else
+                     "KF_C11_nl_right_full_todo" if ("(join right_outer" in opt["plan"] or "(join full_outer" in opt["plan"]) else
+                     "KF_C17_subquery_not_executable" if "(select" in q and ("max1row" in opt["plan"] or "apply" in opt["plan"]) else None)
+            R.property_fails(klass, f"C17 `{c['sql']}` ({c['engine']}) was accepted and planned into {opt['plan'][:160]}; an operator panicked while it ran (execute error: abort)", rep)
+            continue
         if not built or "panic" in ran:
             klass = "KF_C17_subquery_not_executable" if (not built and "(select" in c["sql"]) else \
                     "KF_C11_nl_right_full_todo" if "not yet implemented" in txt else "KF_C14_overflow_panics" if "overflow" in txt else None
